@@ -281,6 +281,32 @@ func main() {
 	fmt.Println(m, s, calls)
 }
 `},
+		// K10: keys in a slice literal are taken for elements
+		{"K10", `package main
+
+import "fmt"
+
+func main() {
+	k := []int{0: 1, 2: 5}
+	fmt.Println(k, len(k))
+}
+`},
+		// K11: the operands of index expressions on the left of a tuple assignment are evaluated after the assignment began
+		{"K11", `package main
+
+import "fmt"
+
+func two() (int, int) {
+	return 1, 2
+}
+
+func main() {
+	xs := []int{0, 0, 0}
+	i := 0
+	xs[i], i = two()
+	fmt.Println(xs, i)
+}
+`},
 	}
 	var res []kfProgram
 	for i, k := range srcs {
